@@ -86,6 +86,45 @@ def fam_two(tier):
                 yield fn(body, shape=name)
 
 
+MIRROR = {"<": ">", ">": "<", "<=": ">=", ">=": "<=", "==": "==", "!=": "!="}
+
+
+def yoda_atoms(tier):
+    """constant-on-the-left form of every comparison atom: K == a, K != a, K < a, K <= a, K > a, K >= a"""
+    for op in CMPS:
+        for k in ([0, 1] if tier == "quick" else [0, 1, 2]):
+            yield B(op, N(k), A)
+
+
+def plain_cmp_atoms(tier):
+    for op in CMPS:
+        for k in ([0, 1] if tier == "quick" else [0, 1, 2]):
+            yield B(op, A, N(k))
+
+
+def fam_yoda(tier):
+    """two-condition shapes in which at least one condition has the constant on the left, mixed with ordinary atoms on the
+    same variable (both orders) and with other Yoda atoms; K inside the parameter domain so both sides of K are executed"""
+    ys, ps = list(yoda_atoms(tier)), list(plain_cmp_atoms(tier))
+    others = ps + ([("u", "!", A), A, B("&", A, N(1)), B("==", A, Bp)] if tier != "quick" else [])
+    pairs = [(y, o) for y in ys for o in others] + [(o, y) for y in ys for o in others] + [(y1, y2) for y1 in ys for y2 in ys]
+    keep = ("nested", "early-return", "else-if", "and", "or") if tier == "quick" else None
+    for c1, c2 in pairs:
+        for name, body in shapes2(c1, c2, "quick" if tier == "quick" else tier):
+            if keep and name not in keep:
+                continue
+            if tier == "quick" and body != next(b_ for n_, b_ in shapes2(c1, c2, "quick") if n_ == name):
+                continue            # quick: only the variant without a modifier between the conditions
+            yield fn(body, shape="yoda-" + name)
+    hdef = ("func", dict(name="h@", ret="si", params=[("si", "v")], body=[("ret", B("+", V("v"), N(1)))]))
+    for y in ys:
+        for k in [0, 1, 2]:
+            yield fn(HEAD + [("e", ASG(A, N(k))), ("if", y, [SET1], None)] + TAIL, shape="yoda-after-const")
+            yield fn(HEAD + [("e", ASG(A, N(k))), ("ret", y)], shape="yoda-return-cond")
+        yield fn(HEAD + [("e", ASG(R, ("call", "h@", (y,), "int")))] + TAIL, pre=[hdef], shape="yoda-arg")
+        yield fn(HEAD + [("while", y, [("e", ("post", "++", A)), ("e", ("post", "++", R))])] + TAIL, shape="yoda-loop")
+
+
 def fam_three(tier):
     ats = [a for a in atoms("quick")]
     for c1 in ats:
@@ -137,8 +176,8 @@ def fam_narrow(tier):
                                  params=[("si", "a"), ("ui", "u")], shape="modulo-compare")
 
 
-FAMILIES = [("two", fam_two), ("one", fam_one), ("narrow", fam_narrow), ("three", fam_three)]
-QUICK = ("two", "one", "narrow")
+FAMILIES = [("two", fam_two), ("one", fam_one), ("narrow", fam_narrow), ("yoda", fam_yoda), ("three", fam_three)]
+QUICK = ("two", "one", "narrow", "yoda")
 
 # ---- interpretation of findings ---------------------------------------------------------------------------------------
 RE_ALWAYS = re.compile(r"is always (true|false)")
